@@ -23,6 +23,7 @@ import (
 	"database/sql/driver"
 
 	"seata.apache.org/seata-go/pkg/tm"
+	"seata.apache.org/seata-go/pkg/util/log"
 )
 
 type FenceTx struct {
@@ -33,6 +34,12 @@ type FenceTx struct {
 
 func (tx *FenceTx) Commit() error {
 	if err := tx.TargetTx.Commit(); err != nil {
+		// the business did not commit: the fence record must not stay behind,
+		// neither committed nor as an open transaction
+		tx.clearFenceTx()
+		if rerr := tx.TargetFenceTx.Rollback(); rerr != nil {
+			log.Error(rerr)
+		}
 		return err
 	}
 
@@ -41,12 +48,14 @@ func (tx *FenceTx) Commit() error {
 }
 
 func (tx *FenceTx) Rollback() error {
-	if err := tx.TargetTx.Rollback(); err != nil {
-		return err
-	}
+	err := tx.TargetTx.Rollback()
 
+	// whatever happened to the business transaction, the fence one ends too
 	tx.clearFenceTx()
-	return tx.TargetFenceTx.Rollback()
+	if rerr := tx.TargetFenceTx.Rollback(); err == nil {
+		err = rerr
+	}
+	return err
 }
 
 func (tx *FenceTx) clearFenceTx() {
